@@ -112,7 +112,6 @@ class Ctx:
                     f"the code: the rule would pass vacuously (anchor moved or rewritten?)")
 
     def finish(self) -> int:
-        self.check_floors()
         known = [k for k in load_known() if k.get("property") == self.prop]
         new, old = [], []
         for v in self.violations:
@@ -120,6 +119,9 @@ class Ctx:
                 old.append(v)
             else:
                 new.append(v)
+        if not new:
+            # floors guard against a vacuous PASS; a run that reports a violation is not one
+            self.check_floors()
         wall = round(time.time() - self.t0, 3)
         out = []
         if not self.quiet:
